@@ -730,6 +730,14 @@ func FetchWithParallelRangeRequests(client *http.Client, rawURL string, cfg *Fet
 			return
 		}
 
+		// The body must be exactly the requested range: a server that ignores
+		// Range (200 + whole body) or truncates the chunk would otherwise be
+		// concatenated silently into a corrupt result.
+		if want := rangeEnd - rangeStart + 1; int64(len(data)) != want {
+			resultCh <- chunkResult{index: index, err: fmt.Errorf("range request returned %d bytes (status %d), want %d", len(data), resp.StatusCode, want), hedge: isHedge}
+			return
+		}
+
 		elapsed := time.Since(start)
 		mu.Lock()
 		completionTimes = append(completionTimes, elapsed)
@@ -791,7 +799,11 @@ func FetchWithParallelRangeRequests(client *http.Client, rawURL string, cfg *Fet
 	// Receive loop. `expected` grows as we launch hedges; we exit when
 	// we have a successful result for every chunk OR when we've drained
 	// every launched goroutine and some chunks are still missing.
-	for chunksRemaining > 0 {
+	// `expected > 0` is part of the loop condition: once every launched
+	// attempt has reported, nothing will ever be sent again, whatever the
+	// last result was (a success for another chunk, a duplicate, a
+	// suppressed hedge failure).
+	for chunksRemaining > 0 && expected > 0 {
 		cr := <-resultCh
 		expected--
 		if cr.err != nil {
